@@ -1,4 +1,5 @@
 import LinfaSpec.Proofs.Predict
+import LinfaSpec.Proofs.PredictPlatt
 import Mathlib.Order.Defs.LinearOrder
 
 /-!
@@ -234,7 +235,7 @@ theorem tree_batch_eq_map {α L : Type} [LT α] [DecidableLT α] (t : Tree α L)
     obtain ⟨l, hl⟩ := tree_descend_total t r (by rw [hrows r hr]; exact ht)
     simp [hl]
 
-example : treeBatch (Tree.node 0 (5 : Int) (.leaf 1) (.node 1 2 (.leaf 2) (.leaf 3))) [[4, 0], [5, 1], [5, 2]]
+example : treeBatch (LinfaSpec.Predict.Tree.node 0 (5 : Int) (.leaf 1) (.node 1 2 (.leaf 2) (.leaf 3))) [[4, 0], [5, 1], [5, 2]]
     = some [1, 2, 3] := by decide
 
 /-! ## What `batch = map row` gives: composition, order and multiplicity of the batch do not matter -/
@@ -280,5 +281,77 @@ theorem dataset_form_returns_records {R T : Type} (inplace : List R → T) (reco
 
 example : (predictForm (fun (rs : List Nat) => rs.map (· * 2)) .ownedDataset [1, 2]).targets =
     (predictForm (fun rs => rs.map (· * 2)) .inplace [1, 2]).targets := forms_agree _ _ _ _
+
+
+/-! ## Platt scaling (over `ℝ`, `exp := Real.exp`, the `F → f32` cast read as the identity) -/
+
+/-- the two branches of `platt_predict` compute the same sigmoid `1 / (1 + e^t)` -/
+theorem platt_branches_agree (t : ℝ) :
+    Real.exp (-t) / (1 + Real.exp (-t)) = 1 / (1 + Real.exp t) ∧
+    plattRaw t = 1 / (1 + Real.exp t) := by
+  refine ⟨?_, plattRaw_eq t⟩
+  rw [Real.exp_neg]
+  have h : 0 < Real.exp t := Real.exp_pos t
+  field_simp
+  ring
+
+/-- the value `platt_predict` returns: `Pr::new` never rejects it -/
+theorem platt_value (x a b : ℝ) :
+    plattPredict (fun (v : ℝ) => v) x a b = some (1 / (1 + Real.exp (a * x + b))) := by
+  have h : 0 < Real.exp (a * x + b) := Real.exp_pos _
+  have h0 : (0 : ℝ) ≤ 1 / (1 + Real.exp (a * x + b)) := by positivity
+  have h1 : 1 / (1 + Real.exp (a * x + b)) ≤ (1 : ℝ) := by
+    rw [div_le_one (by linarith)]; linarith
+  unfold plattPredict
+  simp only [plattRaw_eq]
+  rw [if_pos ⟨h0, h1⟩]
+
+/-- **a Platt-calibrated model returns a probability in [0,1]**, for every decision value and
+every fitted `A`, `B` -/
+theorem platt_range (x a b : ℝ) :
+    ∃ p, plattPredict (fun (v : ℝ) => v) x a b = some p ∧ 0 ≤ p ∧ p ≤ 1 := by
+  have h : 0 < Real.exp (a * x + b) := Real.exp_pos _
+  refine ⟨_, platt_value x a b, by positivity, ?_⟩
+  rw [div_le_one (by linarith)]; linarith
+
+/-- the probability is an antitone sigmoid of `t = A·f + B` … -/
+theorem platt_antitone_in_t (t t' : ℝ) (h : t ≤ t') : plattRaw t' ≤ plattRaw t := by
+  rw [plattRaw_eq, plattRaw_eq]
+  have e : Real.exp t ≤ Real.exp t' := Real.exp_le_exp.mpr h
+  have p : 0 < Real.exp t := Real.exp_pos t
+  exact one_div_le_one_div_of_le (by linarith) (by linarith)
+
+/-- … hence **monotone in the inner decision value** `f`: non-increasing for `A ≥ 0`,
+non-decreasing for `A ≤ 0` (the fitted `A` of a useful calibration is negative). -/
+theorem platt_monotone (a b x x' : ℝ) (hx : x ≤ x') :
+    (0 ≤ a → plattRaw (a * x' + b) ≤ plattRaw (a * x + b)) ∧
+    (a ≤ 0 → plattRaw (a * x + b) ≤ plattRaw (a * x' + b)) := by
+  constructor
+  · intro ha
+    exact platt_antitone_in_t _ _ (by nlinarith)
+  · intro ha
+    exact platt_antitone_in_t _ _ (by nlinarith)
+
+/-- strictly so when `A ≠ 0` and the decision values differ: a sigmoid, not a step -/
+theorem platt_strict (a b x x' : ℝ) (hx : x < x') (ha : a < 0) :
+    plattRaw (a * x + b) < plattRaw (a * x' + b) := by
+  rw [plattRaw_eq, plattRaw_eq]
+  have e : Real.exp (a * x' + b) < Real.exp (a * x + b) := Real.exp_lt_exp.mpr (by nlinarith)
+  have p : 0 < Real.exp (a * x' + b) := Real.exp_pos _
+  exact one_div_lt_one_div_of_lt (by linarith) (by linarith)
+
+/-- the Platt wrapper over a per-sample inner model is a per-sample function with one output per row -/
+theorem platt_batch_eq_map {R : Type} (d : R → ℝ) (a b : ℝ) (rows : List R) :
+    plattBatch (fun (v : ℝ) => v) (fun rs => rs.map d) a b rows =
+      some (rows.map fun r => 1 / (1 + Real.exp (a * d r + b))) := by
+  unfold plattBatch
+  rw [List.mapM_map]
+  apply mapM_some_of_forall
+  intro r _
+  rw [Function.comp_apply]
+  exact platt_value (d r) a b
+
+example : ∃ p, plattPredict (fun (v : ℝ) => v) 2 (-1) 0.5 = some p ∧ 0 ≤ p ∧ p ≤ 1 := platt_range _ _ _
+example : plattRaw ((-1 : ℝ) * 1 + 0) < plattRaw ((-1 : ℝ) * 2 + 0) := platt_strict (-1) 0 1 2 (by norm_num) (by norm_num)
 
 end LinfaSpec.Props.C03
